@@ -504,4 +504,132 @@ Proof.
   destruct (filter has_filter (flat_map snd (m_groups m))); [contradiction|cbn in H; lia].
 Qed.
 
+
+(* ------------------------------------------------------------------ entries as a set keyed by their path *)
+
+Lemma entries_put_iff : forall es e x, NoDup (map e_pat es) ->
+  (In x (entries_put es e) <-> x = e \/ (In x es /\ e_pat x <> e_pat e)).
+Proof.
+  induction es as [|y es IH]; intros e x Hnd; cbn [entries_put].
+  - cbn. split; [intros [H|[]]; now left|intros [H|[[] _]]; now left].
+  - cbn in Hnd. inversion Hnd as [|? ? Hy Hnd']; subst.
+    destruct (pat_eqb (e_pat y) (e_pat e)) eqn:E.
+    + apply pat_eqb_eq in E. cbn [In]. split.
+      * intros [H|H]; [now left|]. right. split; [now right|]. intros Hp. apply Hy. rewrite E, <- Hp. now apply in_map.
+      * intros [H|[[H|H] Hp]]; [now left| |now right]. subst y. congruence.
+    + apply pat_eqb_neq in E. cbn [In]. rewrite IH by auto. split.
+      * intros [H|[H|[H Hp]]]; [right; split; [now left|congruence]|now left|right; split; [now right|auto]].
+      * intros [H|[[H|H] Hp]]; [right; now left|now left|right; right; auto].
+Qed.
+
+Lemma groups_put_iff : forall gs e x, wf_groups gs ->
+  (In x (flat_map snd (groups_put gs (length (e_pat e)) e)) <-> x = e \/ (In x (flat_map snd gs) /\ e_pat x <> e_pat e)).
+Proof.
+  induction gs as [|[k es] gs IH]; intros e x [Hnd Hwf]; cbn [groups_put flat_map snd].
+  - cbn. split; [intros [H|[]]; now left|intros [H|[[] _]]; now left].
+  - cbn in Hnd. inversion Hnd as [|? ? Hk Hnd']; subst.
+    assert (Hgs : wf_groups gs) by (split; auto; intros g Hg; apply Hwf; now right).
+    destruct (Hwf (k, es) (or_introl eq_refl)) as [G1 [G2 [G3 G4]]]. cbn [fst snd] in *.
+    destruct (Nat.eqb k (length (e_pat e))) eqn:E; cbn [flat_map snd]; rewrite !in_app_iff.
+    + apply Nat.eqb_eq in E. rewrite entries_put_iff by auto. split.
+      * intros [[H|[H Hp]]|H]; [now left|right; split; [now left|auto]|].
+        right. split; [now right|]. intros Hp. apply in_flat_map in H as [g [Hg Hx]].
+        destruct (Hwf g (or_intror Hg)) as [_ [_ [Hlen _]]]. apply Hk.
+        replace k with (fst g); [now apply in_map|]. rewrite <- (Hlen x Hx), Hp. now symmetry.
+      * intros [H|[[H|H] Hp]]; [left; now left|left; right; auto|now right].
+    + rewrite (IH e x Hgs). split.
+      * intros [H|[H|[H Hp]]]; [|now left|right; split; [now right|auto]].
+        right. split; [now left|]. intros Hp. apply Nat.eqb_neq in E. apply E. rewrite <- Hp. symmetry. now apply G3.
+      * intros [H|[[H|H] Hp]]; [right; now left|now left|right; right; auto].
+Qed.
+
+Lemma all_entries_put : forall m p f x, wf_groups (m_groups m) -> p <> [] ->
+  (In x (all_entries (m_put m p f)) <-> x = mkEntry p f \/ (In x (all_entries m) /\ e_pat x <> p)).
+Proof.
+  intros m p f x Hw Hp. unfold all_entries, m_put. destruct p as [|c p]; [congruence|]. cbn [m_groups].
+  apply (groups_put_iff (m_groups m) (mkEntry (c :: p) f) x Hw).
+Qed.
+
+Lemma all_entries_set_filter : forall m p f e x, wf_groups (m_groups m) -> m_get m p = Some e ->
+  (In x (all_entries (m_set_filter m p f)) <-> x = mkEntry p f \/ (In x (all_entries m) /\ e_pat x <> p)).
+Proof.
+  intros m p f e x Hw Hg. unfold all_entries, m_set_filter. rewrite Hg. cbn [m_groups].
+  apply (groups_put_iff (m_groups m) (mkEntry p f) x Hw).
+Qed.
+
+Lemma m_get_some : forall m p e, m_get m p = Some e -> In e (all_entries m) /\ e_pat e = p.
+Proof.
+  intros m p e H. unfold m_get in H. apply entries_get_some in H as [H1 H2]. split; auto.
+  apply group_get_in in H1 as [g [Hg [_ He]]]. apply in_all_entries. eauto.
+Qed.
+
+Lemma m_get_none : forall m p, wf_groups (m_groups m) -> m_get m p = None -> forall e, In e (all_entries m) -> e_pat e <> p.
+Proof.
+  intros m p Hw H e He Hp. unfold m_get in H. rewrite entries_get_none in H.
+  apply (H e); auto. rewrite <- Hp. now apply entry_in_its_group.
+Qed.
+
+(* two entries with the same path are the same entry *)
+Lemma entries_unique : forall m a b, wf_groups (m_groups m) -> In a (all_entries m) -> In b (all_entries m) ->
+  e_pat a = e_pat b -> a = b.
+Proof.
+  intros m a b Hw Ha Hb Hp.
+  apply (entry_in_its_group m a Hw) in Ha. apply (entry_in_its_group m b Hw) in Hb. rewrite Hp in Ha.
+  apply group_get_in in Ha as [g [Hg [Hd Ha]]]. apply group_get_in in Hb as [g' [Hg' [Hd' Hb]]].
+  destruct Hw as [Hnd Hwf].
+  assert (g = g').
+  { clear - Hnd Hg Hg' Hd Hd'. induction (m_groups m) as [|x l IH]; [contradiction|].
+    cbn in Hnd. inversion Hnd as [|? ? Hx Hnd']; subst.
+    destruct Hg as [Hg|Hg], Hg' as [Hg'|Hg']; subst; auto.
+    - exfalso. apply Hx. rewrite Hd, <- Hd'. now apply in_map.
+    - exfalso. apply Hx. rewrite Hd', <- Hd. now apply in_map. }
+  subst g'. destruct (Hwf g Hg) as [_ [_ [_ Hnp]]].
+  clear - Hnp Ha Hb Hp. induction (snd g) as [|x l IH]; [contradiction|].
+  cbn in Hnp. inversion Hnp as [|? ? Hx Hnp']; subst.
+  destruct Ha as [Ha|Ha], Hb as [Hb|Hb]; subst; auto.
+  - exfalso. apply Hx. rewrite Hp. now apply in_map.
+  - exfalso. apply Hx. rewrite <- Hp. now apply in_map.
+Qed.
+
+(* GetMatchCount with the node's payload: the entries whose path and filter accept *)
+Definition ematch (e : entry) (q : path) (v : payload) : bool :=
+  pat_matches (e_pat e) q && filter_ok (e_flt e) (Some v).
+
+Lemma count_in_groups_gen : forall (R : entry -> bool) gs p, NoDup (map fst gs) -> (forall g, In g gs -> wf_group g) ->
+  length (filter (fun e => pat_matches (e_pat e) p && R e) (flat_map snd gs))
+  = length (filter (fun e => pat_matches (e_pat e) p && R e) (group_get gs (length p))).
+Proof.
+  intros R. induction gs as [|[k es] gs IH]; intros p Hnd Hwf; cbn; auto.
+  inversion Hnd as [|? ? Hk Hnd']; subst.
+  rewrite filter_app, app_length.
+  destruct (Nat.eqb k (length p)) eqn:E.
+  - apply Nat.eqb_eq in E.
+    rewrite (filter_none _ _ (flat_map snd gs)); [cbn; lia|].
+    intros e He. apply in_flat_map in He as [g [Hg He]].
+    destruct (Hwf g (or_intror Hg)) as [_ [_ [Hlen _]]].
+    destruct (pat_matches (e_pat e) p) eqn:Em; auto. apply pat_matches_length in Em.
+    exfalso. apply Hk. rewrite (Hlen e He) in Em. subst k. rewrite <- Em. now apply in_map.
+  - rewrite (filter_none _ _ es).
+    + cbn. apply IH; auto. intros g Hg. apply Hwf. now right.
+    + intros e He. destruct (Hwf (k, es) (or_introl eq_refl)) as [_ [_ [Hlen _]]].
+      destruct (pat_matches (e_pat e) p) eqn:Em; auto. apply pat_matches_length in Em.
+      cbn in Hlen. rewrite (Hlen e He) in Em. apply Nat.eqb_neq in E. contradiction.
+Qed.
+
+Lemma match_count_data_spec : forall m p v, wf_groups (m_groups m) ->
+  match_count m p (Some v) 0 = N.of_nat (length (filter (fun e => ematch e p v) (all_entries m))).
+Proof.
+  intros m p v [Hnd Hwf]. unfold match_count, all_entries, ematch. cbn [Nat.ltb Nat.leb].
+  rewrite Nat.sub_0_r. f_equal.
+  rewrite (count_in_groups_gen (fun e => filter_ok (e_flt e) (Some v))); auto.
+Qed.
+
+Lemma matches_path_ematch : forall m q v, wf_groups (m_groups m) ->
+  matches_path m q (Some v) = true <-> exists e, In e (all_entries m) /\ ematch e q v = true.
+Proof.
+  intros m q v Hw. rewrite matches_path_spec by auto. unfold ematch. split.
+  - intros [e [H1 [H2 H3]]]. exists e. split; auto. now rewrite H2, H3.
+  - intros [e [H1 H2]]. apply andb_true_iff in H2 as [H2 H3]. eauto.
+Qed.
+
 End MatcherProofs.
